@@ -152,7 +152,20 @@ pub trait InlinesContext: Copy {
 }
 
 pub fn is_ref_url(url: &str) -> bool {
-    !(url.to_lowercase().starts_with("http://")
-        || url.to_lowercase().starts_with("https://")
-        || url.to_lowercase().starts_with("mailto:"))
+    // a destination with a scheme (https:, mailto:, file:, zotero: ...) or an absolute path
+    // names something outside of the library
+    !(has_scheme(url) || url.starts_with('/'))
+}
+
+fn has_scheme(url: &str) -> bool {
+    match url.split_once(':') {
+        Some((scheme, _)) => {
+            scheme.len() > 1
+                && scheme.starts_with(|c: char| c.is_ascii_alphabetic())
+                && scheme
+                    .chars()
+                    .all(|c| c.is_ascii_alphanumeric() || matches!(c, '+' | '-' | '.'))
+        }
+        None => false,
+    }
 }
